@@ -9,7 +9,7 @@ git -C $wt apply $out/patch.diff || { echo "CONFIRM $pid/$v: patch does not appl
 suite=$(cd $wt && cargo nextest run --workspace --no-fail-fast --offline 2>&1 | grep -E "Summary|error(\[|:)" | head -3)
 rundemo() {
   if [ -f $out/demo/Cargo.toml ]; then (cd $out/demo && CARGO_TARGET_DIR=$wt/target/demo cargo test --offline 2>&1 | grep -E "^test result|error(\[|:)|could not compile" | head -5)
-  else (cd $out/demo && sh ./run.sh 2>&1 | grep -E "^test result|Summary|error(\[|:)|could not compile" | head -5); echo "run.sh exit=$?"; fi
+  else (cd $out/demo && sh ./run.sh 2>&1 | grep -E "^test result|Summary|PASS|FAIL|error(\[|:)|could not compile" | head -6); fi
 }
 demo_with=$(rundemo)
 git -C $wt checkout -q -- . ; git -C $wt clean -fdq -e target -e Cargo.lock
